@@ -168,6 +168,36 @@ const SUBS: &[&str] = &[
 
 const HEADER: &str = "TYPE T\n  F AS INTEGER\nEND TYPE\nDIM R AS T\nDIM A(3)\nS$ = \"xyz\"\nH$ = CHR$(200) + \"a\" + CHR$(201)\nN% = 2\nD# = 3.5\nDATA 1, \"two\", 3.5\n";
 
+/// DEF SEG / PEEK / POKE histories: the segment is state that a later PEEK or POKE depends on.
+fn memory_programs() -> Vec<String> {
+    let menu = [
+        "DEF SEG = 0",
+        "DEF SEG",
+        "DEF SEG = VARSEG(A(1))",
+        "PRINT PEEK(5)",
+        "POKE 5, 1",
+        "PRINT PEEK(VARPTR(N%)); PEEK(VARPTR(L&) + 3); PEEK(VARPTR(D#) + 7); PEEK(VARPTR(S$)); PEEK(VARPTR(R))",
+        "POKE VARPTR(L&) + 3, 1: POKE VARPTR(D#) + 7, 64: POKE VARPTR(S$), 65: POKE VARPTR(R), 2: PRINT L&; D#; S$; R.F",
+        "PRINT PEEK(VARPTR(A(1)) + 1); PEEK(VARPTR(E$(1)))",
+        "POKE VARPTR(D#) + 7, 127: POKE VARPTR(D#) + 6, 240: PRINT \"poked\"",
+    ];
+    let head = "TYPE T\n  F AS INTEGER\nEND TYPE\nDIM R AS T\nDIM A(3)\nDIM E$(2)\nS$ = \"xyz\"\nN% = 2\nL& = 70000\nD# = 3.5\n";
+    let mut out = vec![];
+    let n = menu.len();
+    for a in 0..n {
+        out.push(format!("{}{}\n", head, menu[a]));
+        for b in 0..n {
+            out.push(format!("{}{}\n{}\n", head, menu[a], menu[b]));
+            if a < 3 {
+                for c in 0..n {
+                    out.push(format!("{}{}\n{}\n{}\n", head, menu[a], menu[b], menu[c]));
+                }
+            }
+        }
+    }
+    out
+}
+
 fn arg_lists(max_args: usize) -> Vec<String> {
     let mut out = vec![String::new()];
     let mut prev = vec![String::new()];
@@ -246,6 +276,7 @@ pub fn drive(tier: &str) -> i32 {
         "several block statements on one source line (sequential and nested)".into(),
         vcore::slots::one_line_programs(),
     ));
+    groups.push(("memory statements: every sequence of <= 3 over DEF SEG (none, = 0, = VARSEG of an array) / PEEK / POKE at a fixed address and at variables of every type".into(), memory_programs()));
     groups.push((
         "harvested texts (accepted ones are run; x stdin menu when they read the console)".into(),
         h.texts
